@@ -95,7 +95,7 @@ def compare(hdr, b, pi, got):
         elif k == "abst":
             ok = gv["n"] == ev["n"] and gv["has"] == ev["has"] and gv["s"] == ev["s"]
         elif k == "cnt":
-            ok = gv["n"] in (0, ev["n"])        # E: counted per occurrence, or left alone
+            ok = gv["n"] == ev["n"]             # I: counted once per occurrence
         else:
             ok = True
         if not ok:
@@ -162,37 +162,39 @@ def run_cfg(ctx, exe, cfg, state):
     hard = {}
     for f in fails:
         hard.setdefault(f.sid, []).append(f)
-    # verdict per behaviour: None or (kind, field, pass, exp, got, detail)
+    # verdict per behaviour: list of (kind, field, pass, exp, got, detail), one per mismatching field of the first
+    # pass that mismatches (later passes start from a state the specification does not describe)
     verdict = {}
     nstrict = npasses = 0
     for k, b in enumerate(todo):
         sid = k + 1
-        v = None
+        vs = []
         npass = 2 if "PRE" in b["st"] else 1
         nstrict += 1 if b["strict"] else 0
         for f in hard.get(sid, []):
             if f.kind in ("crash", "hang", "exit", "inv"):
                 d = f.sig if f.kind != "inv" else f.got
-                v = (f.kind, d, ["pre", "main"][f.step] if npass == 2 and f.step < 2 else "main", "", d, f.detail)
+                vs.append((f.kind, d, ["pre", "main"][f.step] if npass == 2 and f.step < 2 else "main", "", d, f.detail))
                 break
-        if v is None:
+        if not vs:
             for pi in range(npass):
                 st = by.get(sid, {}).get(pi)
                 if st is None:
-                    v = ("missing", "record", str(pi), "", "", "")
+                    vs.append(("missing", "record", str(pi), "", "", ""))
                     break
                 mm = compare(hdr, b, pi, untok(st))
                 npasses += 1
                 if mm:
-                    kind, field, exp, got = mm[0]
-                    v = (kind, field, b["passes"][pi]["pass"] if b["strict"] else str(pi), exp, got, "; ".join("%s exp=%s got=%s" % m[1:] for m in mm))
+                    pn = b["passes"][pi]["pass"] if b["strict"] else ("pre" if npass == 2 and pi == 0 else "main")
+                    for kind, field, exp, got in mm:
+                        vs.append((kind, field, pn, exp, got, ""))
                     break
-        if v is None:
+        if not vs:
             for f in hard.get(sid, []):
                 if f.kind == "heap":
-                    v = ("heap", "imbalance", "end", f.exp, f.got, "")
-        if v is not None:
-            verdict[bkey(b)] = (v, b, texts[k])
+                    vs.append(("heap", "imbalance", "end", f.exp, f.got, ""))
+        if vs:
+            verdict[bkey(b)] = (vs, b, texts[k])
     state["verdicts"].update(verdict)
     ctx.add("behaviours_strict", nstrict)
     ctx.add("passes_compared", npasses)
@@ -208,9 +210,13 @@ def run_cfg(ctx, exe, cfg, state):
     return hdr
 
 
-def minimise(verdicts, key):
-    """Drop words while the shorter vector (same table and settings, also explored) fails the same way."""
-    (v, b, _t) = verdicts[key]
+def has_mismatch(verdicts, key, v):
+    w = verdicts.get(key)
+    return w is not None and any(x[0] == v[0] and x[1] == v[1] and x[2] == v[2] for x in w[0])
+
+
+def minimise(verdicts, key, v):
+    """Drop words while the shorter vector (same table and settings, also explored) shows the same mismatch."""
     cur = key
     changed = True
     while changed:
@@ -218,8 +224,7 @@ def minimise(verdicts, key):
         tbn, st, av = cur
         for k in range(len(av)):
             cand = (tbn, st, av[:k] + av[k + 1:])
-            w = verdicts.get(cand)
-            if w is not None and w[0][0] == v[0] and w[0][1] == v[1] and w[0][2] == v[2]:
+            if has_mismatch(verdicts, cand, v):
                 cur = cand
                 changed = True
                 break
@@ -232,27 +237,27 @@ def run(ctx):
     for cfg in CFGS[ctx.tier]:
         state["hdr"] = run_cfg(ctx, exe, cfg, state)
     verdicts = state["verdicts"]
-    groups = {}
+    byf = {}        # finding key -> {minimal vector key: number of explored vectors that reduce to it}
     for key in sorted(verdicts):
-        m = minimise(verdicts, key)
-        groups.setdefault(m, []).append(key)
-    byf = {}
-    for m in sorted(groups):
-        (v, b, txt) = verdicts[m]
-        argv_s = "[%s]" % ",".join(text(w).replace(" ", "_") for w in b["argv"])
-        fkey = "%s:%s pass=%s tb=%d argv=%s" % (v[0], v[1], v[2], b["tb"], argv_s)
-        byf.setdefault(fkey, []).append(m)
+        for v in verdicts[key][0]:
+            m = minimise(verdicts, key, v)
+            (_vs, b, _t) = verdicts[m]
+            argv_s = "[%s]" % ",".join(text(w).replace(" ", "_") for w in b["argv"])
+            fkey = "%s:%s pass=%s tb=%d argv=%s" % (v[0], v[1], v[2], b["tb"], argv_s)
+            d = byf.setdefault(fkey, {})
+            d[m] = d.get(m, 0) + 1
     for fkey in sorted(byf):
-        ms = byf[fkey]
-        (v, b, txt) = verdicts[ms[0]]
+        ms = sorted(byf[fkey])
+        (vs, b, txt) = verdicts[ms[0]]
+        v = [x for x in vs if fkey.startswith("%s:%s pass=%s " % (x[0], x[1], x[2]))][0]
         kind, field, pas, exp, got, detail = v
         argv_s = "[%s]" % ",".join(text(w).replace(" ", "_") for w in b["argv"])
-        sts = ["{%s}" % (verdicts[m][1]["st"] and ",".join(sorted(verdicts[m][1]["st"]))) for m in ms]
+        sts = ["{%s}" % ",".join(sorted(verdicts[m][1]["st"])) for m in ms]
         what = "table %d argv %s settings %s: %s %s in the %s pass: expected %s, got %s (%d explored vectors reduce to this) %s" % (
-            b["tb"], argv_s, " ".join(sts), kind, field, pas, exp, got, sum(len(groups[m]) for m in ms), detail[:700])
+            b["tb"], argv_s, " ".join(sts), kind, field, pas, exp, got, sum(byf[fkey].values()), detail[:700])
         ctx.report(fkey, what, {"harness_args": ["@tables"], "script_text": txt, "behaviour": b})
     ctx.cov["failing_behaviours"] = len(verdicts)
-    ctx.cov["failing_minimal_vectors"] = len(groups)
+    ctx.cov["failing_minimal_vectors"] = len(byf)
     ctx.cov["exhaustive"] = True
     ctx.cov["rule"] = ("every behaviour (table x settings x argument vector) TLC generates in the bounded scope is executed once on "
                        "spifopt_parse (pre-parse pass + normal pass as one script); targets, argv up to and including the NULL, bad-option "
